@@ -407,6 +407,7 @@ fn check_seq<T: Serialize + DeserializeOwned + Clone + Debug + Unpin>(
     full_cuts: bool,
     st: &mut CStats,
 ) {
+    let four_chunks = FOUR_CHUNKS.load(std::sync::atomic::Ordering::Relaxed);
     let want: Vec<String> = items.iter().map(|i| format!("{i:?}")).collect();
     let (reference, _) = match encode(codec, items, 0, false, false) {
         Ok(x) => x,
@@ -443,6 +444,15 @@ fn check_seq<T: Serialize + DeserializeOwned + Clone + Debug + Unpin>(
         plans.push(vec![*a]);
         for b in &cuts[i + 1..] {
             plans.push(vec![*a, *b]);
+        }
+    }
+    if four_chunks && reference.len() <= 72 {
+        for (i, a) in cuts.iter().enumerate() {
+            for (j, b) in cuts.iter().enumerate().skip(i + 1) {
+                for c in &cuts[j + 1..] {
+                    plans.push(vec![*a, *b, *c]);
+                }
+            }
         }
     }
     for plan in &plans {
@@ -543,6 +553,30 @@ fn check_kinds(st: &mut CStats) {
                     }
                 }
                 other => fail(st, "C15-error-kind-lost", format!("{codec:?}: {k:?} decoded to {other:?}")),
+            }
+        }
+    }
+}
+
+/// Kind numbers a peer may write that are not in the 18-entry table read back as `Other`.
+fn check_raw_kinds(st: &mut CStats) {
+    for codec in [Codec::Json, Codec::Bincode] {
+        for kind in (0u32..=40).chain([255, 256, 65_536, u32::MAX]) {
+            let bytes = crate::c16::response_with_kind(codec, 3, kind);
+            st.decodes += 1;
+            st.distinct.insert(hash_of(&("rawkind", codec, kind)));
+            let r = std::panic::catch_unwind(|| decode::<Response<String>>(codec, &bytes, &[], false));
+            let want = if (kind as usize) < PORTABLE.len() { None } else { Some("Other") };
+            match r {
+                Ok((items, End::Eof)) if items.len() == 1 => {
+                    if let Some(w) = want {
+                        if !items[0].contains(&format!("kind: {w},")) {
+                            fail(st, &format!("C15-unknown-kind-{codec:?}"), format!("{codec:?}: kind number {kind} (outside the table) was read as {}", items[0]));
+                        }
+                    }
+                }
+                Ok((items, end)) => fail(st, "C15-unknown-kind-rejected", format!("{codec:?}: response with kind number {kind} decoded to {items:?} / {end:?}")),
+                Err(_) => fail(st, "C15-unknown-kind-panics", format!("{codec:?}: response with kind number {kind}: {}", crate::mock::take_panic())),
             }
         }
     }
@@ -710,8 +744,11 @@ fn check_channels(st: &mut CStats, depth: usize) {
 
 // ---------------------------------------------------------------------------------------------
 
+pub static FOUR_CHUNKS: std::sync::atomic::AtomicBool = std::sync::atomic::AtomicBool::new(false);
+
 pub fn run_c15(tier: Tier) -> i32 {
     let start = Instant::now();
+    FOUR_CHUNKS.store(tier == Tier::Thorough, std::sync::atomic::Ordering::Relaxed);
     // jobs: (kind, index)
     #[derive(Clone)]
     enum Job {
@@ -730,7 +767,7 @@ pub fn run_c15(tier: Tier) -> i32 {
             jobs.push(Job::ClientSeq(vec![i], codec, true));
         }
         for i in 0..ns {
-            if tier == Tier::Quick && i >= 4 + 6 && i % 4 != 0 {
+            if false && i >= 4 + 6 && i % 4 != 0 {
                 continue; // quick: a quarter of the per-kind responses (all kinds are still covered by Job::Kinds)
             }
             jobs.push(Job::ServerSeq(vec![i], codec, true));
@@ -738,19 +775,19 @@ pub fn run_c15(tier: Tier) -> i32 {
         // sequences of length 2 and 3 over small messages (indices of short ones)
         let small_c: Vec<usize> = vec![0, 1, 2, 3, 5];
         let small_s: Vec<usize> = vec![0, 1, 2, 4, 17];
-        let lim = if tier == Tier::Quick { 3 } else { 5 };
+        let lim = 5;
         for a in small_c.iter().take(lim) {
             for b in small_c.iter().take(lim) {
-                jobs.push(Job::ClientSeq(vec![*a, *b], codec, tier == Tier::Thorough));
-                for c in small_c.iter().take(if tier == Tier::Quick { 2 } else { lim }) {
+                jobs.push(Job::ClientSeq(vec![*a, *b], codec, true));
+                for c in small_c.iter().take(lim) {
                     jobs.push(Job::ClientSeq(vec![*a, *b, *c], codec, false));
                 }
             }
         }
         for a in small_s.iter().take(lim) {
             for b in small_s.iter().take(lim) {
-                jobs.push(Job::ServerSeq(vec![*a, *b], codec, tier == Tier::Thorough));
-                for c in small_s.iter().take(if tier == Tier::Quick { 2 } else { lim }) {
+                jobs.push(Job::ServerSeq(vec![*a, *b], codec, true));
+                for c in small_s.iter().take(lim) {
                     jobs.push(Job::ServerSeq(vec![*a, *b, *c], codec, false));
                 }
             }
@@ -758,7 +795,7 @@ pub fn run_c15(tier: Tier) -> i32 {
     }
     let next = AtomicUsize::new(0);
     let total = Mutex::new(CStats::default());
-    let chan_depth = if tier == Tier::Quick { 7 } else { 9 };
+    let chan_depth = if tier == Tier::Quick { 8 } else { 10 };
     std::thread::scope(|s| {
         for _ in 0..nthreads() {
             s.spawn(|| {
@@ -782,7 +819,10 @@ pub fn run_c15(tier: Tier) -> i32 {
                                 let items: Vec<Response<String>> = ix.iter().map(|k| sc[*k].clone()).collect();
                                 check_seq(&format!("responses {ix:?}"), *codec, &items, *full, &mut st);
                             }
-                            Job::Kinds => check_kinds(&mut st),
+                            Job::Kinds => {
+                                check_kinds(&mut st);
+                                check_raw_kinds(&mut st);
+                            }
                             Job::Defaults => check_defaults(&mut st),
                             Job::Channels => check_channels(&mut st, chan_depth),
                         }
